@@ -173,6 +173,30 @@ def init_walkers(ctx):
                            uses, "tested determinant is built from the returned orbitals" if uses else
                            "the acceptance test looks at other orbitals than the ones returned",
                            p.modules[fi.module].path, line)
+                # the trial overlap of a restricted walker phi is det(up^T phi) * det(dn^T phi): the test must see
+                # both spin sectors (a sector whose natural orbitals are returned unchanged contributes det = 1)
+                def spin_root(x):
+                    for y in subterms(x):
+                        if y.op == "call" and (func_name(y) or "").split(".")[-1] in ("eigh", "_eigh"):
+                            a = strip_wrappers(call_parts(y)[1][0])
+                            if a.op == "getitem" and a.args[1].op == "const" and a.args[1].args[0] in (0, 1):
+                                return a.args[1].args[0]
+                    return None
+
+                seen = set()
+                for d in dets:
+                    for y in operands(d):
+                        if y is base(core):
+                            continue
+                        sr = spin_root(y)
+                        if sr is not None:
+                            seen.add(sr)
+                own = spin_root(base(core)) if core is not None and not any(
+                    z.op == "call" and (func_name(z) or "").endswith("linalg.qr") for z in subterms(base(core))) else None
+                need = {0, 1} - ({own} if own is not None else set())
+                ctx.rep.ob("GUARD-1", f"{fi.qualname}: return #{k}: the accepted overlap covers both spin sectors of the trial",
+                           need <= seen, f"determinants against the natural orbitals of spin(s) {sorted(seen)}; "
+                           f"needed {sorted(need)}", p.modules[fi.module].path, line)
     for k, (path, term, line) in enumerate(fr.raises):
         t = strip_wrappers(term)
         is_ve = t.op == "call" and func_name(t) == "builtins.ValueError"
